@@ -1,4 +1,5 @@
 import Proofs.Lemmas.Reindex
+import FsicModel.Generated
 /-
 C12 — reindex preserves overlapping periods and fills the rest, on a fresh object.
 
@@ -84,9 +85,9 @@ theorem reindex_spec (o : Obj M) (new : List Nat) (fv : PyVal) (sa : Option Bool
           | some k => rfl
 
 example :
-    (reindex .list (⟨[10, 11, 12], [("X", ⟨.int, [.i 1, .i 2, .i 3]⟩), ("S", ⟨.str 1, [.s ['.'], .s ['.'], .s ['F']]⟩)],
+    (reindex .list (⟨[10, 11, 12], [("X", ⟨.int (-128) 127, [.i 1, .i 2, .i 3]⟩), ("S", ⟨.str 1, [.s ['.'], .s ['.'], .s ['F']]⟩)],
         false, ()⟩ : Obj Unit) [12, 99, 10, 12] .none none [("S", .s ['-'])]).toOption.map (·.vars) =
-    some [("X", ⟨.int, [.i 3, .i 0, .i 1, .i 3]⟩), ("S", ⟨.str 1, [.s ['F'], .s ['-'], .s ['.'], .s ['F']]⟩)] := by
+    some [("X", ⟨.int (-128) 127, [.i 3, .i 0, .i 1, .i 3]⟩), ("S", ⟨.str 1, [.s ['F'], .s ['-'], .s ['.'], .s ['F']]⟩)] := by
   decide
 
 /-- `firstIndex` is Python's `list.index`: the first position holding the label; `none` iff the label is absent
@@ -100,9 +101,37 @@ example : firstIndex 7 [5, 7, 6, 7] = some 1 := by decide
 
 /-- The dtype defaults: NaN, 0, False, ''. -/
 theorem fill_default_table :
-    coerce .float .none = .ok (.f nanBits) ∧ coerce .int .none = .ok (.i 0) ∧ coerce .bool .none = .ok (.b false) ∧
-    ∀ w, coerce (.str w) .none = .ok (.s []) :=
-  ⟨rfl, rfl, rfl, fun _ => rfl⟩
+    coerce .float .none = .ok (.f nanBits) ∧ (∀ lo hi, coerce (.int lo hi) .none = .ok (.i 0)) ∧
+    coerce .bool .none = .ok (.b false) ∧ ∀ w, coerce (.str w) .none = .ok (.s []) :=
+  ⟨rfl, fun _ _ => rfl, rfl, fun _ => rfl⟩
+
+/-- The dtype default for EVERY integer-like dtype — every kind that takes the integer arm (`int8 … int64`,
+    `uint8 … uint64`), whatever its width — is 0, for bool False, for every `<U` width ''. -/
+theorem default_by_kind (kind : Char) (size : Nat) (casts : List (PyVal × Option Val)) :
+    (branchOf kind = .int → coerce (mkDType kind size casts) .none = .ok (.i 0)) ∧
+    (branchOf kind = .bool → coerce (mkDType kind size casts) .none = .ok (.b false)) ∧
+    (branchOf kind = .str → coerce (mkDType kind size casts) .none = .ok (.s [])) := by
+  refine ⟨?_, ?_, ?_⟩ <;> intro h <;> simp [mkDType, h, coerce, defaultFill]
+
+/-- **Reflected: the model's branch function is the code's `if/elif` chain.**  For every dtype of the probed
+    catalogue (`Generated.reindexProbes`, rewritten from the imported fsic on every run) that the model treats
+    itself — bool, every integer width signed and unsigned, timedelta64, every `<U`, float64 — what the real
+    `reindex` put into a new period with no fill value, and with `fill_value=2.9`, is what the model computes. -/
+theorem reflected_branches :
+    ∀ e ∈ Fsic.Generated.reindexProbes,
+      (branchOf e.2.1 ≠ .passthrough ∨ (e.2.1 = 'f' ∧ e.2.2.1 = 8)) →
+        encode (coerce (mkDType e.2.1 e.2.2.1 []) .none) = e.2.2.2.1 ∧
+        encode (coerce (mkDType e.2.1 e.2.2.1 []) (.f 4613712638259704627 (some 2) ['2', '.', '9'])) = e.2.2.2.2 := by
+  decide
+
+/-- **Reflected: the code's defaults are the property's table** (False, 0, NaN, '') for every probed dtype of a kind
+    the table speaks about: bool, all signed and unsigned integer widths, float16/32/64, complex64/128, `<U`. -/
+theorem reflected_property_defaults :
+    ∀ e ∈ Fsic.Generated.reindexProbes, ∀ d, propertyDefault e.2.1 = some d → e.2.2.2.1 = d := by
+  decide
+
+example : ("int32", 'i', 4, ("i", (0 : Int), false, ([] : List Char)), ("i", (2 : Int), false, ([] : List Char))) ∈
+    Fsic.Generated.reindexProbes := by decide
 
 /-- **Fill precedence**: the per-variable keyword if given, else `fill_value`; (and `None` — from either place —
     means the dtype default). -/
@@ -195,12 +224,18 @@ theorem reindex_preserves_meta (kind : SpanKind) (o : Obj M) (new : List Nat) (f
 
 /-- The coercion of a fill value never raises KeyError. -/
 theorem coerce_ne_keyError (d : DType) (v : PyVal) : coerce d v ≠ .error .keyError := by
-  have hi : ∀ n, intVal n ≠ .error .keyError := by
-    intro n; unfold intVal; split <;> simp
-  cases d <;> cases v <;> simp [coerce, hi]
-  · rename_i bits asInt asStr
+  have hi : ∀ lo hi n, intVal lo hi n ≠ .error .keyError := by
+    intro lo hi n; unfold intVal; split <;> simp
+  have ho : ∀ casts w, castOther casts w ≠ .error .keyError := by
+    intro casts w
+    unfold castOther
+    cases casts.lookup w with
+    | none => simp
+    | some x => cases x <;> simp
+  cases d <;> cases v <;> simp [coerce, hi, ho]
+  · rename_i lo hi' bits asInt asStr
     cases asInt <;> simp [coerce, hi]
-  · rename_i t
+  · rename_i lo hi' t
     cases EvalIdx.parsePyInt t <;> simp [hi]
 
 /-- **reindex_strict_unknown.**  Under effective strictness (`strict=True`, or `strict=None` on a strict object) a
@@ -262,8 +297,8 @@ theorem effective_strict (b : Bool) : effectiveStrict none b = b ∧ ∀ s, effe
 
 example : reindex .list (⟨[1, 2], [("X", ⟨.float, [.f 0, .f 0]⟩)], true, ()⟩ : Obj Unit) [2, 3] .none none
     [("Q", .i 1)] = .error .keyError := rfl
-example : (reindex .list (⟨[1, 2], [("X", ⟨.int, [.i 4, .i 5]⟩)], true, ()⟩ : Obj Unit) [2, 3] .none (some false)
-    [("Q", .i 1)]).toOption.map (·.vars) = some [("X", ⟨.int, [.i 5, .i 0]⟩)] := by decide
+example : (reindex .list (⟨[1, 2], [("X", ⟨.int 0 255, [.i 4, .i 5]⟩)], true, ()⟩ : Obj Unit) [2, 3] .none (some false)
+    [("Q", .i 1)]).toOption.map (·.vars) = some [("X", ⟨.int 0 255, [.i 5, .i 0]⟩)] := by decide
 
 /-- **Success.**  On a well-formed object (every series as long as the span — C09's invariant) `reindex` returns
     a result whenever the strict check passes and every chosen fill value can be coerced to its dtype. -/
